@@ -1,2 +1,2 @@
--- Root of the `Smpl` library: every property file (which pull in models, specs, lemmas).
 import Smpl.Props.C18
+import Smpl.Props.C19
